@@ -16,7 +16,8 @@ from harness import propagation_util as pu
 from harness.ledger_util import BOUNDS, model_check, emitted_behaviours, replay, run_b3
 
 C01_MODEL_CLAUSES = ('INVARIANT TypeOK', 'INVARIANT Conservation', 'INVARIANT SharesInUnitInterval',
-                     'INVARIANT GsnrIdentity', 'INVARIANT MuxDemuxLossless', 'PROPERTY MCDemuxMuxKeepLedger')
+                     'INVARIANT GsnrIdentity', 'INVARIANT MuxDemuxLossless', 'INVARIANT SourceIsWhole',
+                     'PROPERTY MCDemuxMuxKeepLedger', 'PROPERTY MCSourceUntouched')
 
 
 def run(chk):
